@@ -86,7 +86,7 @@ Definition run_schema (s : sx) : sx :=
                let fits := (goval_depth data * S R + urank dfs Kr sch <? fuel)%nat in
                let inside (an aa : bool) :=
                  jd_b f_finite an aa (S (goval_depth data)) data &&
-                 (cleanr_b f_finite an aa orc dfs K n sch || (fits && cleang_b f_finite an orc dfs Kr R fuel sch data)) in
+                 (cleanr_b f_finite an aa orc dfs K n sch || (fits && cleang_b f_finite orc dfs Kr R fuel sch data)) in
                (* the theorems are about draft 4: both Swagger-mode options off *)
                ofBool (negb (opt_array_must_have_items opts) && negb (opt_obj_array_type_check opts) &&
                        (inside false false || inside false true || inside true false || inside true true)));
@@ -133,7 +133,7 @@ Definition run_simple (s : sx) : sx :=
   end.
 
 (* the same case against the declarative reading (Schema/SimpleAgree.v, SimpleCarrier.v): (inside the proved class?, verdict of the
-   reading of the value carried, inside through the typed-value theorem only?) *)
+   reading of the value carried, inside only under the unproved divisibility clause?, inside through the typed-value theorem for binary64?) *)
 Definition run_simple_frag (s : sx) : sx :=
   match s with
   | L [orc; root; data] =>
@@ -142,10 +142,16 @@ Definition run_simple_frag (s : sx) : sx :=
           let q := sr_simple root in
           let clean := qclean_b orc flocq_ops f_finite (q_format q) q in
           let json := clean && jd_b f_finite false true (S (goval_depth data)) data && qfits_b flocq_ops q data in
-          (* typed values (Schema/SimpleCarrier.v): the theorem is conditional on the exactness of the numeric implementation *)
-          let typed := clean && tj_b f_finite (S (goval_depth data)) data && tfits_b flocq_ops f_finite q data in
-          L [ ofBool (json || typed);
+          (* typed values (Schema/SimpleCarrier.v) *)
+          let tj := clean && tj_b f_finite (S (goval_depth data)) data in
+          (* proved of the binary64 model (C16_typed_agreement_for_the_binary64_model) ... *)
+          let typed := tj && tfits_b flocq_ops f_finite false q data in
+          (* ... or conditional on the divisibility clause of the numeric interface (multipleOf with an integral factor on an
+             integer carrier) *)
+          let typed_c := tj && tfits_b flocq_ops f_finite true q data in
+          L [ ofBool (json || typed || typed_c);
               ofBool (root_spec orc flocq_ops root (as_json flocq_ops data));
+              ofBool (typed_c && negb typed && negb json);
               ofBool (typed && negb json) ]
       | _, _, _ => sx_err
       end
